@@ -180,8 +180,7 @@ def param_words(pid):
                                                 "client" if pid[0] == "c" else "server")
 
 
-def compare(case, job, row):
-    """First disagreement between the real run and the case: (signature, detail) or None."""
+def _compare(case, job, row):
     tr = job["tr"]
     exp = case["trace"]
     got = row["marks"]
@@ -253,6 +252,14 @@ def compare(case, job, row):
     return None
 
 
+def compare(case, job, row):
+    """First disagreement between the real run and the case: (signature, error kind or "", detail) or None."""
+    d = _compare(case, job, row)
+    if d is None:
+        return None
+    return d if len(d) == 3 else (d[0], "", d[1])
+
+
 def describe_case(case, job):
     c = case["cfg"]
     return "%s K=%d %s M=%d %s handler=%s%s kinds=%s%s" % (
@@ -276,9 +283,18 @@ def check_rows(cases, jobs, by):
 
 def confirm_and_report(ctx, mism, tag):
     """Re-execute (3 copies) one case per signature; report when the disagreement reproduces."""
-    seen = {}
+    base = {}
     for case, job, row, d in mism:
-        seen.setdefault(d[0], []).append((case, job, row, d))
+        base.setdefault(d[0], []).append((case, job, row, d))
+    seen = {}
+    for sig, items in base.items():
+        kinds = sorted(set(it[3][1] for it in items))
+        if len(kinds) <= 2 and kinds != [""]:
+            # specific to one or two error kinds: the kind is part of the signature
+            for it in items:
+                seen.setdefault(kinded(sig, it[3][1]), []).append(it)
+        else:
+            seen[sig] = items
     n = 0
     for sig, items in seen.items():
         n += 1
@@ -293,12 +309,12 @@ def confirm_and_report(ctx, mism, tag):
             r2 = by[cj["i"]]
             if r2["status"] == "ok":
                 d2 = compare(case, cj, r2)
-                if d2 and d2[0] == sig:
+                if d2 and d2[0] == d[0]:
                     again += 1
         if again == 0:
             raise vlib.Inconclusive("disagreement did not reproduce: %s | %s" % (sig, describe_case(case, job)))
-        ctx.report(sig, "%s: %s (%d cases of this run, reproduced %d/3)" % (describe_case(case, job), d[1], len(items), again),
-                   {"case": case, "job": job, "row": row, "detail": d[1], "hits": len(items),
+        ctx.report(sig, "%s: %s (%d cases of this run, reproduced %d/3)" % (describe_case(case, job), d[2], len(items), again),
+                   {"case": case, "job": job, "row": row, "detail": d[2], "hits": len(items),
                     "cmd": "python3 tools/verif.py replay X02 <this file>"})
 
 
@@ -394,6 +410,10 @@ def run(ctx):
     by, wall = run_jobs(ctx, jobs, "main")
     bad, mism = check_rows(cases, jobs, by)
     if mism:
+        hist = {}
+        for _, _, _, d in mism:
+            hist[d[0]] = hist.get(d[0], 0) + 1
+        ctx.notes.append("disagreements: %s" % sorted(hist.items(), key=lambda kv: -kv[1])[:12])
         confirm_and_report(ctx, mism, "main")
     if bad and not ctx.violations and not ctx.known_hits:
         c, j, row = bad[0]
@@ -430,7 +450,8 @@ def run(ctx):
     for case, job in zip(cases, jobs):
         c, tr = case["cfg"], case["cfg"]["tr"]
         bump(tr, "outcome=" + c["h"])
-        bump(tr, "result=%s+%s" % (case["result"]["resp"], origin_words(case["result"]["err"]).split()[-1]))
+        le = case["result"]["err"]
+        bump(tr, "result=%s+%s" % (case["result"]["resp"], le if le in ("none", "h", "transport", "panic", "panicked") else le[0] + "mw"))
         if any(b == "failpre" for b in c["cb"]):
             bump(tr, "client short-circuit")
         if any(b == "failpre" for b in c["sb"]) and any(m["m"] == "enter" and m["side"] == "s" for m in case["trace"]):
@@ -520,7 +541,7 @@ def replay(ctx, path):
     shutil.rmtree(ctx.build, ignore_errors=True)
     if res:
         print("VIOLATION property=X02 replay=%s" % path)
-        print("  %s: %s" % (describe_case(case, job), res[1]))
+        print("  %s: %s" % (describe_case(case, job), res[2]))
         return 1
     print("replay: case passes on the current tree (3 executions)")
     return 0
